@@ -15,15 +15,20 @@ ASSUMPTIONS = [
 
 TIERS = {
     "quick": [dict(NumDCs=2, MaxIdx=3, MaxLen=3, WithWait=False),
-              dict(NumDCs=3, MaxIdx=2, MaxLen=3, WithWait=False)],
+              dict(NumDCs=3, MaxIdx=2, MaxLen=3, WithWait=False),
+              # data centres of four nodes (one membership update, then every sequence of selections)
+              dict(NumDCs=1, MaxIdx=4, MaxLen=4, WithWait=False, SetAt={0}),
+              dict(NumDCs=2, MaxIdx=4, MaxLen=3, WithWait=False, SetAt={0})],
     "thorough": [dict(NumDCs=2, MaxIdx=3, MaxLen=3, WithWait=False),
                  dict(NumDCs=3, MaxIdx=2, MaxLen=3, WithWait=False),
                  dict(NumDCs=2, MaxIdx=4, MaxLen=3, WithWait=False),
+                 dict(NumDCs=1, MaxIdx=4, MaxLen=5, WithWait=False, SetAt={0}),
+                 dict(NumDCs=2, MaxIdx=4, MaxLen=4, WithWait=False, SetAt={0}),
                  dict(NumDCs=2, MaxIdx=2, MaxLen=4, WithWait=True),
                  dict(NumDCs=1, MaxIdx=4, MaxLen=4, WithWait=True)],
 }
-SIM = {"quick": dict(NumDCs=3, MaxIdx=3, MaxLen=6, WithWait=False, num=1500),
-       "thorough": dict(NumDCs=4, MaxIdx=3, MaxLen=8, WithWait=False, num=10000)}
+SIM = {"quick": dict(NumDCs=3, MaxIdx=4, MaxLen=6, WithWait=False, num=1500),
+       "thorough": dict(NumDCs=4, MaxIdx=4, MaxLen=8, WithWait=False, num=10000)}
 
 
 def run(ctx):
@@ -34,7 +39,8 @@ def run(ctx):
     runs = [(c, None) for c in TIERS[ctx.tier]] + [(SIM[ctx.tier], SIM[ctx.tier]["num"])]
     for i, (c, sim) in enumerate(runs):
         consts = {k: v for k, v in c.items() if k != "num"}
-        consts["SetAt"] = set(range(c["MaxLen"])) if not sim else {0, c["MaxLen"] // 2}
+        if "SetAt" not in consts:
+            consts["SetAt"] = set(range(c["MaxLen"])) if not sim else {0, c["MaxLen"] // 2}
         cfg = vlib.cfg_text(constants=dict(consts, EmitHist=True), constraints=["Emit"])
         hist_file = ctx.path("hist_%d.out" % i)
         extra = ["-simulate", "num=%d" % sim, "-depth", str(c["MaxLen"] + 1), "-seed", str(ctx.seed)] if sim else []
